@@ -272,13 +272,17 @@ def _armed(plan):
     out = [dict(f) for f in plan['faults']]
     pos = P.index_case(plan['case'])
     for ident, b in sorted(plan['procs'].items()):
-        if ident in pos and b.get('exit', 0) != 0:
+        if ident in pos and b.get('expect_kill'):
+            out.append({'id': ident, 'step': 'main', 'kind': 'timeout_kill', 'real': True})
+        elif ident in pos and b.get('exit', 0) != 0:
             item = plan['case'][pos[ident][0]][pos[ident][1]]
             if item['k'] == 'probe' and not item.get('ignore'):
                 out.append({'id': ident, 'step': 'main', 'kind': 'exit_nonzero', 'real': True})
     atc = plan['procs'].get('atc', {})
     if atc.get('spawn_error') and plan['case'].get('act', {}).get('lines'):
         out.append({'id': 'atc', 'step': 'execute', 'kind': 'spawn_error', 'real': True})
+    elif atc.get('expect_kill') and plan['case'].get('act', {}).get('lines'):
+        out.append({'id': 'atc', 'step': 'execute', 'kind': 'timeout_kill', 'real': True})
     return out
 
 
@@ -291,6 +295,8 @@ def _fired(plan, hist):
         if f is None:
             continue
         if f['kind'] == 'exit_nonzero' and s['exit'] not in (0, None):
+            out.append({'id': f['id'], 'step': f['step'], 'kind': f['kind'], 'seq': s['seq'], 'real': True})
+        if f['kind'] == 'timeout_kill' and s.get('killed'):
             out.append({'id': f['id'], 'step': f['step'], 'kind': f['kind'], 'seq': s['seq'], 'real': True})
         if f['kind'] == 'spawn_error' and s['error']:
             out.append({'id': f['id'], 'step': f['step'], 'kind': f['kind'], 'seq': s['seq'], 'real': True})
